@@ -185,7 +185,7 @@ func init() {
 		Run: runC08,
 		Promises: func(core.Tier) map[string][]string {
 			return map[string][]string{"nesting": {"nested-update", "nested-batch", "commit-action-registered-before-the-transaction", "listener-registered-inside-the-transaction"}, "tx_kind": {"update-committed", "update-rolled-back", "update-vetoed", "batch-committed", "batch-concurrent-with-failure"},
-				"event": {"emps:created", "emps:updated", "emps:deleted", "depts:created", "depts:deleted", "emps/ext:created", "emps/ext:updated", "emps/ext:deleted", "emps/xt:created", "emps/xt:updated", "emps/xt:deleted",
+				"event": {"parent-event-for-child:created-over-existing", "emps:created", "emps:updated", "emps:deleted", "depts:created", "depts:deleted", "emps/ext:created", "emps/ext:updated", "emps/ext:deleted", "emps/xt:created", "emps/xt:updated", "emps/xt:deleted",
 					"parent-event-for-child:created", "parent-event-for-child:updated", "parent-event-for-child:deleted"}}
 		},
 		MinCounters: func(core.Tier) map[string]int64 { return map[string]int64{"deliveries_checked": 5000} },
